@@ -105,6 +105,8 @@ def apply_single(Y, fs, ref_ind, tr):
     L, k = np.eye(n), 1.0
     if kind == "gain":
         L = a * np.eye(n)
+        if np.issubdtype(Y.dtype, np.integer) and float(a).is_integer():
+            return Y * int(a), fs * k, ref_ind, L, k      # raw counts times an integer gain stay integer-typed
     elif kind == "perm":
         L = np.eye(n)[list(a)]
         ref_ind = None if ref_ind is None else [list(a).index(r) for r in ref_ind]
@@ -494,6 +496,10 @@ NREC = 4096
 def build_inputs(seed, kind, nch, ms):
     if ms:
         return H.record(seed, kind, NREC, 6, tag="c08")
+    if kind == "counts":
+        # the random-response record as 24-bit raw ADC counts (int64): integer-typed data are legal input
+        Y = H.record(seed, "resp", NREC, nch, tag="c08")
+        return np.round(Y / np.max(np.abs(Y)) * (2 ** 23 - 1)).astype(np.int64)
     return H.record(seed, kind, NREC, nch, tag="c08")
 
 
@@ -586,8 +592,15 @@ def lattice(ctx):
                         part = trs[j::nsplit]
                         if part:
                             items.append((ctx.seed, kind, nch, v, st, part))
+    # integer-typed records (raw counts) under integer gains, single-setup variants without a reference subset
+    for v in single:
+        cls, fam, kw = VARIANTS[v]
+        if "ref_ind" in kw or fam == "efdd":
+            continue
+        st = settings(fam, th)[0]
+        items.append((ctx.seed, "counts", nchs[0], v, st, [("gain", 1000.0), ("gain", -1.0)]))
     ctx.bounds.update({
-        "records": {"kinds": kinds, "samples": NREC, "fs": FS, "channels (single setup)": nchs, "multi-setup": "6-channel record split into 2 data sets of 4 columns sharing 2 references"},
+        "records": {"kinds": kinds + ["counts (int64 raw counts of the response record; integer gains 1000 and -1)"], "samples": NREC, "fs": FS, "channels (single setup)": nchs, "multi-setup": "6-channel record split into 2 data sets of 4 columns sharing 2 references"},
         "algorithm variants": list(VARIANTS),
         "settings": {f: settings(f, th) for f in ("fdd", "efdd", "ssi", "plscf")},
         "transformations": {"gain": [g for kd, g in transformations(4, th, False) if kd == "gain"],
